@@ -137,8 +137,10 @@ NONE = {"k": "none"}
 
 def norm_out(r):
     """harness result -> the record shape Conform.tla expects"""
+    msg = r.get("msg") or ""
     return {"how": r.get("how", "none"), "obs": r.get("obs") or NONE, "final": r.get("final") or NONE,
-            "line": r.get("line") or 0, "msg": r.get("msg") or "", "sp": r.get("sp") if r.get("sp") is not None else -1}
+            "line": r.get("line") or 0, "msg": msg, "mname": msg.split(":")[0] if ":" in msg else "",
+            "sp": r.get("sp") if r.get("sp") is not None else -1}
 
 
 # ------------------------------------------------------------------ TLC validation
@@ -238,7 +240,7 @@ class Report:
         stale = [s for s in open_known if s not in seen_known]
         self.cov["known_findings_seen"] = sorted(seen_known)
         self.cov["known_findings_not_reproduced"] = sorted(stale)
-        self.cov["violation_signatures"] = sorted(violations)[:50]
+        self.cov["violation_signatures"] = sorted(violations)[:400]
         self.cov.update(self.notes)
         ev = {"property_id": self.prop, "tier": self.tier, "seed": self.seed, "level": self.level,
               "coverage": self.cov, "assumptions": self.assumptions, "wall_s": round(time.time() - self.t0, 2),
